@@ -511,6 +511,30 @@ CORR5 = [
      "b0": [3.6875, 6.9375, 3.25, 1.8125, -0.9375]},      # condition number 7164
 ]
 
+# deeper thorough tier: one more n = 5 system and three n = 6 systems of the same construction (segments only for n = 6)
+CORR_DEEP = [
+    {"A": [[7.171875, -13.046875, 9.40625, -2.96875, 8.0], [-13.046875, 23.90625, -16.40625, 5.453125, -12.984375], [9.40625, -16.40625, 16.15625, -3.546875, 18.78125], [-2.96875, 5.453125, -3.546875, 1.28125, -2.59375], [8.0, -12.984375, 18.78125, -2.59375, 27.296875]],
+     "b0": [-1.5, 3.0625, -0.8125, 0.875, 0.625]},      # n = 5, condition number 14473
+    {"A": [[8.546875, -1.328125, 9.328125, -11.390625, 2.78125, -4.828125], [-1.328125, 10.546875, 8.8125, 3.890625, 2.609375, 1.0625], [9.328125, 8.8125, 21.21875, -12.0, 4.984375, -4.859375], [-11.390625, 3.890625, -12.0, 20.8125, 0.4375, 5.984375], [2.78125, 2.609375, 4.984375, 0.4375, 4.40625, -1.84375], [-4.828125, 1.0625, -4.859375, 5.984375, -1.84375, 2.859375]],
+     "b0": [-2.1875, 1.8125, -0.6875, 2.4375, -1.0625, 1.875]},      # n = 6, condition number 1158
+    {"A": [[22.25, 9.359375, -7.25, -10.328125, 10.265625, -10.03125], [9.359375, 7.703125, -5.453125, 0.921875, 14.890625, -1.5625], [-7.25, -5.453125, 19.375, 19.359375, -7.984375, -14.40625], [-10.328125, 0.921875, 19.359375, 37.3125, 13.6875, -11.65625], [10.265625, 14.890625, -7.984375, 13.6875, 35.96875, 0.703125], [-10.03125, -1.5625, -14.40625, -11.65625, 0.703125, 23.171875]],
+     "b0": [6.75, 7.125, -7.1875, 0.0, 14.375, 2.375]},      # n = 6, condition number 2154
+    {"A": [[10.515625, 5.140625, -11.0, 10.234375, -2.96875, -1.453125], [5.140625, 38.484375, -1.140625, -3.875, 5.0625, 9.1875], [-11.0, -1.140625, 12.28125, -12.234375, 4.046875, 2.359375], [10.234375, -3.875, -12.234375, 13.15625, -4.84375, -3.1875], [-2.96875, 5.0625, 4.046875, -4.84375, 2.1875, 1.953125], [-1.453125, 9.1875, 2.359375, -3.1875, 1.953125, 3.421875]],
+     "b0": [-0.4375, 3.3125, 0.875, -1.5625, 1.1875, 0.875]},      # n = 6, condition number 2747
+]
+
+MATS3_DEEP = [
+    [[5.0, 2.0, -1.0], [2.0, 4.0, 1.5], [-1.0, 1.5, 3.0]],                 # mixed signs, moderate correlation
+    [[2.0, 1.5, 1.0], [1.5, 2.0, 1.5], [1.0, 1.5, 2.0]],                   # Toeplitz, correlation 0.75 (condition number 23)
+    [[4096.0, -1024.0, 0.0], [-1024.0, 4096.0, -1024.0], [0.0, -1024.0, 4096.0]],   # huge magnitude (2^10 x tridiagonal)
+    [[0.00390625, 0.001953125, 0.0], [0.001953125, 0.0078125, -0.001953125], [0.0, -0.001953125, 0.00390625]],   # tiny magnitude (2^-8)
+    [[1.0, 0.0, 0.0], [0.0, 1.0, 0.0], [0.0, 0.0, 1.0]],                   # identity (coincident decision boundaries)
+    [[3.0, -1.0, -1.0], [-1.0, 3.0, -1.0], [-1.0, -1.0, 3.0]],             # fully symmetric (ties between all components)
+]
+MATS4_DEEP = [
+    [[4.0, -1.0, -1.0, 0.0], [-1.0, 4.0, 0.0, -1.0], [-1.0, 0.0, 4.0, -1.0], [0.0, -1.0, -1.0, 4.0]],   # 2x2 mesh: curvature + constant regularisation
+    [[2.0, 0.5, 0.0, 0.0], [0.5, 3.0, 1.0, 0.0], [0.0, 1.0, 4.0, -1.5], [0.0, 0.0, -1.5, 5.0]],         # banded, mixed signs
+]
 
 def body_family(inp, A, b0, dirs, mode):
     t = list(np.asarray(inp["t"], dtype=object).reshape(-1))
@@ -994,7 +1018,7 @@ def case_inversion(ctx, **cfg):
                 sol = actual.get(tag + "solution")
                 _check_linear_in_solution(ctx, k, actual.get(k), expected[k], list(sol) if sol is not None else [])
 
-    _STATE["margin_scale"] = Fraction(1, 2 ** cfg.get("scale_exp", 0))
+    _STATE["margin_scale"] = Fraction(2) ** (-cfg.get("scale_exp", 0))
     try:
         _guarded(ctx, go)
     finally:
@@ -1028,7 +1052,7 @@ MATS4 = [
 
 BODIES = {"case_family": body_family, "case_solver": body_solver, "case_unconstrained": body_unconstrained, "case_inversion": body_inversion}
 EXPLORER_OPTS = {"timeout_ms": 20000, "max_paths": 20000, "max_decisions": 150, "logic": "QF_NRA", "max_candidates": 3}
-BUDGET_S = {"quick": 900, "thorough": 2300}
+BUDGET_S = {"quick": 900, "thorough": 3000}
 
 
 BOUNDS = {
@@ -1196,7 +1220,60 @@ def cases(tier):
             out.append(("case_inversion", _inv((4, 4), [5, 6, 9, 10], "rect", (4, 4), True, True, warm, True), {"split": 4}))
         out.append(("case_inversion", _inv((3, 3), [3, 4, 5], "rect", (3, 5), False, True, True, True, history=2), sp))
         out.append(("case_inversion", _inv((3, 3), [3, 4, 5], "rect", (3, 5), False, True, False, True, zero_pixels=[4])))
+        out += _deeper_cases(deep, sp)
     return out
+
+
+def _deeper_cases(deep, sp):
+    """second layer of the thorough tier: more of the input space under the same obligations"""
+    import itertools
+    out = []
+    # solver level: more matrices (incl. huge / tiny magnitudes, identity, fully symmetric), n = 3 and n = 4
+    for A in MATS3_DEEP:
+        Mm = np.array(A)
+        assert np.array_equal(Mm, Mm.T) and np.linalg.eigvalsh(Mm).min() > 1e-4
+        for mode in ("cold", "warm"):
+            out.append(("case_solver", {"A": A, "mode": mode}))
+        out.append(("case_unconstrained", {"A": A, "ranges": [[0, 3]], "force": False}))
+    for A in MATS4_DEEP:
+        Mm = np.array(A)
+        assert np.array_equal(Mm, Mm.T) and np.linalg.eigvalsh(Mm).min() > 1e-2
+        for mode in ("cold", "warm"):
+            out.append(("case_solver", {"A": A, "mode": mode}, {"split": 4}))
+    out.append(("case_solver", {"A": MATS4[0], "mode": "direct"}, {"split": 4}))
+    # strongly correlated systems: one more n = 5 system (segments + 4 planes), three n = 6 systems (segments)
+    for k, e in enumerate(CORR_DEEP):
+        Mm = np.array(e["A"])
+        n = Mm.shape[0]
+        assert np.array_equal(Mm, Mm.T) and np.linalg.eigvalsh(Mm).min() > 1e-3
+        for i in range(n):
+            for mode in ("cold", "warm"):
+                out.append(("case_family", {"A": e["A"], "b0": e["b0"], "dirs": [i], "mode": mode}, deep))
+    for d in DEEP_PLANES:
+        out.append(("case_family", {"A": CORR_DEEP[0]["A"], "b0": CORR_DEEP[0]["b0"], "dirs": list(d), "mode": "cold"}, dict(deep, split=2)))
+    for k, e in enumerate(CORR5):
+        for d in ((0, 1), (2, 3)) if k != 2 else ((0, 1), (2, 4)):
+            out.append(("case_family", {"A": e["A"], "b0": e["b0"], "dirs": list(d), "mode": "warm"}, dict(deep, split=2)))
+    # aa.Inversion: three-step Preloads history, more object mixes / option combinations, other magnitudes
+    out.append(("case_inversion", _inv((3, 3), ALL9, "rect", (3, 5), False, False, False, False, history=3)))
+    out.append(("case_inversion", _inv((3, 3), [3, 4], "rect", (3, 5), False, True, True, True, history=3)))
+    for wt in (False, True):
+        out.append(("case_inversion", _inv((3, 3), ALL9, "rect+func+func2", (3, 3), wt, False, False, False)))
+        out.append(("case_inversion", _inv((3, 3), [3, 4, 5], "rect+func", (3, 5), wt, True, wt, True), sp))
+        out.append(("case_inversion", _inv((3, 3), [3, 4, 5], "func2+rect", (3, 5), wt, True, not wt, True, zero_pixels=[1, 4]), sp))
+        out.append(("case_inversion", _inv((3, 3), [3, 4], "rect+funcov", (3, 5), wt, True, wt, True, zero_pixels=[4]), sp))
+        out.append(("case_inversion", _inv((3, 4), [5, 6, 2], "func+rect", (3, 4), wt, True, wt, True), sp))
+    out.append(("case_inversion", _inv((4, 4), [5, 6, 9, 10], "rect", (4, 4), False, True, False, True), {"split": 4}))
+    out.append(("case_inversion", _inv((3, 3), [0, 4, 8], "funcs", None, False, True, False, False), sp))
+    out.append(("case_inversion", _inv((3, 3), [1, 5, 7], "funcs", None, False, True, True, False), sp))
+    for k in (12, 20, -20):       # image 2^-12, 2^-20 and 2^20 times an O(1) image
+        out.append(("case_inversion", _inv((3, 3), [3, 4], "rect", (3, 3), k > 0, True, k < 0, True, scale_exp=k)))
+        out.append(("case_inversion", _inv((3, 3), [3, 4], "func+rect", (3, 3), k < 0, True, k > 0, True, scale_exp=k)))
+        out.append(("case_inversion", _inv((3, 3), [3, 4], "func", None, False, True, False, False, scale_exp=k)))
+    return out
+
+
+DEEP_PLANES = [(0, 1), (0, 3), (1, 2), (2, 4)]
 
 
 def replay(cand):
